@@ -50,6 +50,10 @@ static int w_row, w_off, w_top, w_left;	/* saved window configuration */
 
 static int vc_status(void);
 
+#ifdef NEATVI_VERIF
+void neatvi_verif_draw(int kind, int a, int b, int c, int d);	/* screen update routines: entry (upper case) and exit */
+#endif
+
 static void vi_wait(void)
 {
 	if (vi_printed > 1 || vi_printed < 0) {
@@ -86,9 +90,15 @@ static void vi_drawrow(int row)
 static void vi_drawagain(int xcol, int row)
 {
 	int i;
+#ifdef NEATVI_VERIF
+	neatvi_verif_draw('A', row, 0, 0, 0);
+#endif
 	for (i = xtop; i < xtop + xrows; i++)
 		if (row < 0 || i == row)
 			vi_drawrow(i);
+#ifdef NEATVI_VERIF
+	neatvi_verif_draw('a', row, 0, 0, 0);
+#endif
 	vi_drawmsg();
 }
 
@@ -96,6 +106,9 @@ static void vi_drawagain(int xcol, int row)
 static void vi_drawupdate(int otop)
 {
 	int i = 0;
+#ifdef NEATVI_VERIF
+	neatvi_verif_draw('U', otop, 0, 0, 0);
+#endif
 	if (otop != xtop) {
 		term_pos(0, 0);
 		term_room(otop - xtop);
@@ -109,6 +122,9 @@ static void vi_drawupdate(int otop)
 				vi_drawrow(xtop + i);
 		}
 	}
+#ifdef NEATVI_VERIF
+	neatvi_verif_draw('u', otop, 0, 0, 0);
+#endif
 	vi_drawmsg();
 }
 
@@ -117,12 +133,18 @@ static void vi_drawfix(int r1, int r2, int n, int preview)
 {
 	int dis = n - (r2 - r1 + 1);
 	int i;
+#ifdef NEATVI_VERIF
+	neatvi_verif_draw('F', r1, r2, n, preview);
+#endif
 	if (preview && r1 < xtop)
 		xtop = r1;
 	term_record();
 	if (r1 < xtop) {	/* the replaced lines start above the window */
 		for (i = xtop; i < xtop + xrows; i++)
 			vi_drawrow(i);
+#ifdef NEATVI_VERIF
+		neatvi_verif_draw('f', 0, 0, 0, 0);
+#endif
 		term_commit();
 		return;
 	}
@@ -141,6 +163,9 @@ static void vi_drawfix(int r1, int r2, int n, int preview)
 	for (i = r1; i < xtop + xrows; i++)
 		if (i < r1 + n)
 			vi_drawrow(i);
+#ifdef NEATVI_VERIF
+	neatvi_verif_draw('f', 0, 0, 0, 0);
+#endif
 	term_commit();
 }
 
